@@ -302,7 +302,7 @@ CHECKS = {
                  "COLLATE / DESC / WITHOUT ROWID (constraints that interact: shared automatic index, numbering, alias rule, inherited collation). Distinct = fingerprint of the spec."),
         "assumptions": ["system libsqlite3 (3.40.1) is the reference"],
         "min_nontrivial": {"quick": 500, "thorough": 10000},
-        "required_classes": ["definition-accepted", "interacting-constraints", "index:u", "index:pk", "index:c", "index:appended-columns-checked"],
+        "required_classes": ["no-primary-key-tables-asked-by-primary-key", "definition-accepted", "interacting-constraints", "index:u", "index:pk", "index:c", "index:appended-columns-checked"],
         "timeout": {"quick": 400, "thorough": 2400},
         "jobs": [
             job("schema", "c10", ["TestC10Schema"], 700, 12000, 4, 14),
